@@ -223,40 +223,41 @@ def check_reread(ctx, d, v, small, what='dump'):
     keys = list(d)
     text = d.dump()
     blank = model.blank_continuation(v)
-    ok = True
+    found = {}        # mechanism key -> (first detail, [modes]) : one report per mechanism per case
     for strict, sname in ((WS_FALSE, 'ws-false'), (None, 'default')):
         if strict is None and blank:
             ctx.count('reread-default-skipped:blank-continuation')
             continue
         for form in ('str', 'bytes'):
             data = text if form == 'str' else text.encode('utf-8')
+            mode = '%s/%s' % (form, sname)
             ctx.mon('M.reread')
             try:
                 paras = list(Deb822.iter_paragraphs(data, strict=strict))
             except Exception as e:       # the dump of an accepted value cannot be read back at all
-                ctx.violation('reread-raises', '%s of accepted value %r: re-reading %r (%s, %s) raised %s: %s'
-                              % (what, v, text, form, sname, type(e).__name__, e), small)
-                ok = False
+                found.setdefault('reread-raises', ('raised %s: %s' % (type(e).__name__, e), []))[1].append(mode)
                 continue
             names = [list(p) for p in paras]
             if len(paras) == 1 and names[0] == keys:
                 continue
-            ok = False
-            detail = ('%s of accepted value %r is %r; re-read (%s, %s) gives %d paragraph(s) with fields %r, '
-                      'expected one paragraph with %r' % (what, v, text, form, sname, len(paras), names, keys))
+            detail = 'gives %d paragraph(s) with fields %r' % (len(paras), names)
             if len(paras) > 1:
-                ctx.violation('accepted-value-starts-new-paragraph', detail, small)
+                key = 'accepted-value-starts-new-paragraph'
             elif len(paras) == 0:
-                ctx.violation('accepted-value-reread-empty', detail, small)
+                key = 'accepted-value-reread-empty'
             else:
-                got = names[0]
-                lk, lg = [x.lower() for x in keys], [x.lower() for x in got]
+                lk, lg = [x.lower() for x in keys], [x.lower() for x in names[0]]
                 if [x for x in lg if x not in lk]:
-                    ctx.violation('accepted-value-adds-field', detail, small)
+                    key = 'accepted-value-adds-field'
                 elif [x for x in lk if x not in lg]:
-                    ctx.violation('accepted-value-truncates-paragraph', detail, small)
+                    key = 'accepted-value-truncates-paragraph'
                 else:
-                    ctx.violation('accepted-value-changes-field-names', detail, small)
+                    key = 'accepted-value-changes-field-names'
+            found.setdefault(key, (detail, []))[1].append(mode)
+    for key, (detail, modes) in sorted(found.items()):
+        ctx.violation(key, '%s of accepted value %r is %r; re-read [%s] %s; expected one paragraph with fields %r'
+                      % (what, v, text, ', '.join(modes), detail, keys), small)
+    ok = not found
     return ok
 
 
